@@ -5,20 +5,23 @@ Everything is regenerated on every run from /repo/src as it is *now* (working tr
 Scratch lives under /var/tmp/iodine-verif.<pid> and is removed at exit.
 """
 import atexit, concurrent.futures as cf, hashlib, json, os, re, resource, shutil, signal
-import subprocess, sys, time
+import subprocess, sys, threading, time
 
 REPO = os.environ.get("VERIF_REPO", "/repo")
 VERIF = os.path.dirname(os.path.dirname(os.path.abspath(__file__)))
 HARNESS_DIR = os.path.join(VERIF, "harness")
 GUARD = "IODINE_VERIF"
 BASE_CFLAGS = ["-std=c99", "-DLINUX", "-D_GNU_SOURCE", "-D" + GUARD]
+# CBMC build only: make glibc ctype macros (table lookups via __ctype_b_loc) plain calls so that CBMC's
+# library models of isdigit/tolower apply (C locale)
+CBMC_ONLY_CFLAGS = ["-D__NO_CTYPE"]
 
 CBMC_BASE_FLAGS = [
     "--unwinding-assertions", "--bounds-check", "--pointer-check",
     "--pointer-overflow-check", "--signed-overflow-check", "--undefined-shift-check",
     "--div-by-zero-check", "--drop-unused-functions", "--no-malloc-may-fail",
-    "--max-field-sensitivity-array-size", "520",
 ]
+FS520 = ["--max-field-sensitivity-array-size", "520"]
 
 
 class CheckError(Exception):
@@ -34,6 +37,7 @@ class Scratch:
         self.src = os.path.join(self.root, "src")
         self._copy_src(self.src)
         self.scaled = {}
+        self.lock = threading.Lock()
 
     def cleanup(self):
         shutil.rmtree(self.root, ignore_errors=True)
@@ -53,21 +57,32 @@ class Scratch:
             out.append(line)
         open(os.path.join(dst, "base64u.c"), "w", encoding="latin-1").write("\n".join(out))
 
-    def scaled_src(self, B):
-        """Buffer-scaling transform: every literal 64*1024 / 65536 -> B (scratch copy only)."""
-        if B is None:
+    def scaled_src(self, B, subst=()):
+        """Buffer-scaling transform: every literal 64*1024 / 65536 -> B, plus per-job extra
+        (regex, replacement) rules (scratch copy only; substitutions are counted)."""
+        if B is None and not subst:
             return self.src, 0
-        if B in self.scaled:
-            return self.scaled[B]
-        dst = os.path.join(self.root, "src_s%d" % B)
+        with self.lock:
+            return self._scaled_src(B, tuple(subst))
+
+    def _scaled_src(self, B, subst):
+        key = (B, subst)
+        B, key = (B, key)
+        if key in self.scaled:
+            return self.scaled[key]
+        dst = os.path.join(self.root, "src_s%s_%s" % (B, hashlib.sha1(repr(subst).encode()).hexdigest()[:8]))
         os.makedirs(dst)
         n = 0
         for f in os.listdir(self.src):
             t = open(os.path.join(self.src, f), encoding="latin-1").read()
-            t, k = re.subn(r"\b64\s*\*\s*1024\b|\b65536\b", "(%d)" % B, t)
-            n += k
+            if B is not None:
+                t, k = re.subn(r"\b64\s*\*\s*1024\b|\b65536\b", "(%d)" % B, t)
+                n += k
+            for rx, rp in subst:
+                t, k = re.subn(rx, rp, t)
+                n += k
             open(os.path.join(dst, f), "w", encoding="latin-1").write(t)
-        self.scaled[B] = (dst, n)
+        self.scaled[key] = (dst, n)
         return dst, n
 
 
@@ -99,7 +114,9 @@ class Job:
     def __init__(self, name, harness, defs=None, units=(), scale=None, loops=None,
                  unwind=None, timeout=600, mem_gb=12, flags=(), entry="harness",
                  desc="", bounds="", functions=(), object_bits=None, checks=True,
-                 native_units=None, expect_reach=None):
+                 native_units=None, expect_reach=None, subst=(), solver="cadical"):
+        self.solver = solver
+        self.subst = list(subst)
         self.name = name
         self.harness = harness
         self.defs = dict(defs or {})
@@ -207,13 +224,13 @@ class Runner:
 
     # ---------- build ----------
     def build(self, job, res):
-        src, nsub = self.scratch.scaled_src(job.scale)
+        src, nsub = self.scratch.scaled_src(job.scale, job.subst)
         res.subst = nsub
         jd = os.path.join(self.scratch.root, "job_" + re.sub(r"\W", "_", job.name))
         os.makedirs(jd, exist_ok=True)
         defs = ["-D%s=%s" % (k, v) if v is not None else "-D%s" % k for k, v in job.defs.items()]
         objs = []
-        cmdbase = ["goto-cc"] + BASE_CFLAGS + ["-I", src, "-I", HARNESS_DIR] + defs
+        cmdbase = ["goto-cc"] + BASE_CFLAGS + CBMC_ONLY_CFLAGS + ["-I", src, "-I", HARNESS_DIR] + defs
         for u in [os.path.join(HARNESS_DIR, job.harness)] + [os.path.join(src, u) for u in job.units]:
             o = os.path.join(jd, os.path.basename(u) + ".gb")
             rc, out, err, dt, to = run(cmdbase + ["-c", u, "-o", o], timeout=300)
@@ -254,10 +271,15 @@ class Runner:
                 cmd += ["--unwind", str(job.unwind)]
             if job.object_bits:
                 cmd += ["--object-bits", str(job.object_bits)]
+            if job.solver:
+                cmd += ["--sat-solver", job.solver]
             cmd += job.flags + ["--trace", "--json-ui"]
             res.cmd = " ".join(cmd[2:])
             tcmd = ["/usr/bin/time", "-f", "VRSS=%M"] + cmd
-            rc, out, err, dt, to = run(tcmd, timeout=job.timeout, mem_gb=job.mem_gb)
+            tmo = job.timeout
+            if os.environ.get("VERIF_DEV_TIMEOUT"):
+                tmo = min(tmo, int(os.environ["VERIF_DEV_TIMEOUT"]))
+            rc, out, err, dt, to = run(tcmd, timeout=tmo, mem_gb=job.mem_gb)
             res.t_cbmc = dt
             m = re.search(r"VRSS=(\d+)", err)
             if m:
